@@ -10,6 +10,7 @@ oracle_c02 — line protocol (threads `0..N-1`, keys `0..K-1`; `sᵢ` = shard in
           `busy` (t is parked), `misuse` (lock of a key t holds / duplicate keys / unlock of a key t does not hold in that mode)
   `counts <k>` → `r=<readCount> w=<writeCount> p=<0|1>`     (T-observable)
   `entries`    → number of map entries                       (T-observable)
+  `stress <G> <iters>` → `ok` (G goroutines hammer a fresh locker of the same shape; monitors only)
   `drain`      → every thread outside a call releases what it holds (lowest thread, lowest key first), repeatedly; status vector
 When woken threads race for a further key the quiescent state is not unique: the oracle tracks the set of
 possible states and prints the set of possible answers `{a|b}`. Sleeping writers are woken in FIFO order.
@@ -72,13 +73,32 @@ def macroStep (e : Env) (s : State) (t : Tid) : Option State :=
   | .rel .. => some (runGroup e (.rel t) t (e.K + 2) s)
   | .acq .. => if asleepBehind s t then none else e.step s (.lock t)
 
+/-- objects a thread may still touch in its current call -/
+def objsOf (s : State) (u : Tid) : List ObjId :=
+  match (s.th u).phase with
+  | .idle => []
+  | .reg _ _ gs acc => acc.map (·.2) ++ gs.flatten.filterMap s.table
+  | .acq _ _ todo => todo.map (·.2)
+  | .rel _ gs => gs.flatten.filterMap s.table
+
+/-- partial-order reduction: a blocking-call step of `t` on an object that no other thread's current call can touch
+commutes with everything the others can do until quiescence, so exploring it alone loses no quiescent state -/
+def independentLock (e : Env) (s : State) (t : Tid) : Bool :=
+  match (s.th t).phase with
+  | .acq _ _ ((_, o) :: _) => (List.range e.N).all fun u => u == t || !(objsOf s u).contains o
+  | .acq _ _ [] => true
+  | _ => false
+
 /-- all quiescent states reachable from the frontier, exploring every order of the enabled macro steps
 (every state is expanded once: `seen` holds everything already put on the frontier) -/
 def settleLoop (e : Env) : Nat → List State → Std.HashSet Snap → List Snap → List Snap
   | 0, _, _, quiet => quiet
   | _, [], _, quiet => quiet
   | fuel + 1, s :: rest, seen, quiet =>
-    let succs := (List.range e.N).filterMap (macroStep e s)
+    let succs :=
+      match (List.range e.N).find? (fun t => independentLock e s t && (macroStep e s t).isSome) with
+      | some t => (macroStep e s t).toList
+      | none => (List.range e.N).filterMap (macroStep e s)
     if succs.isEmpty then settleLoop e fuel rest seen (snap e s :: quiet)
     else
       let (seen', fresh) := succs.foldl (fun (acc : Std.HashSet Snap × List State) s' =>
@@ -156,7 +176,7 @@ def parseInit (ws : List String) : Option Env :=
       let single := kind == "kl" || kind == "tkl"
       let multi := kind == "tkl" || kind == "tkg"
       let known := single || kind == "klg" || kind == "tkg"
-      if known && (hash == "mod" || hash == "xh" || hash == "str") && n ≥ 1 && n ≤ 100 && nT ≥ 1 && nT ≤ 32 && nK ≥ 1 && nK ≤ 32 && shs.length == nK && shs.all (· < n) && (!single || n == 1)
+      if known && (hash == "mod" || hash == "xh" || hash == "str") && n ≥ 1 && n ≤ 100 && nT ≥ 1 && nT ≤ 48 && nK ≥ 1 && nK ≤ 48 && shs.length == nK && shs.all (· < n) && (!single || n == 1)
       then some ⟨multi, n, shs, nT, nK⟩ else none
     | _, _, _, _ => none
   | _ => none
@@ -208,6 +228,11 @@ def step (os : OS) (line : String) : OS × String :=
         | none => (os, "bad-op")
       | ["entries"] =>
         (os, showSet (os.states.map fun s => toString ((List.range e.K).filter (fun k => (s.table k).isSome)).length))
+      | ["stress", g, it] =>
+        -- a parallel stress run on a fresh locker of the same shape: no model state, answer is `ok` when it ends cleanly
+        match strictNat? g, strictNat? it with
+        | some g, some it => if g ≥ 1 && g ≤ 16 && it ≥ 1 && it ≤ 5000 then (os, "ok") else (os, "bad-op")
+        | _, _ => (os, "bad-op")
       | ["drain"] =>
         let next := (drainLoop e 10000 os.states []).reverse.map ofSnap
         ({ os with states := next }, showSet (next.map (statusVec e)))
